@@ -36,6 +36,7 @@ import (
 	"go.opentelemetry.io/collector/service/pipelines"
 
 	"VERIF/vr"
+	"VERIF/vs"
 )
 
 type gWorld struct {
@@ -240,7 +241,7 @@ func gFactories() (map[component.Type]receiver.Factory, map[component.Type]proce
 			if err != nil {
 				return nil, err
 			}
-			return gTC{gMk("conn/traces>traces/" + s.ID.String()), func(ctx context.Context, td ptrace.Traces) error { return n.ConsumeTraces(ctx, gAddT(td, ">c")) }}, nil
+			return gTC{gMk("conn/traces>traces/" + s.ID.String()), func(ctx context.Context, td ptrace.Traces) error { return n.ConsumeTraces(ctx, gAddT(td, ">"+s.ID.Name())) }}, nil
 		}, st))
 	}
 	if gDirOK("traces", "logs") {
@@ -250,7 +251,7 @@ func gFactories() (map[component.Type]receiver.Factory, map[component.Type]proce
 				return nil, err
 			}
 			return gTC{gMk("conn/traces>logs/" + s.ID.String()), func(ctx context.Context, td ptrace.Traces) error {
-				return n.ConsumeLogs(ctx, gAddL(plog.NewLogs(), gStampT(td)+">c"))
+				return n.ConsumeLogs(ctx, gAddL(plog.NewLogs(), gStampT(td)+">"+s.ID.Name()))
 			}}, nil
 		}, st))
 	}
@@ -261,7 +262,7 @@ func gFactories() (map[component.Type]receiver.Factory, map[component.Type]proce
 				return nil, err
 			}
 			return gLC{gMk("conn/logs>traces/" + s.ID.String()), func(ctx context.Context, ld plog.Logs) error {
-				return n.ConsumeTraces(ctx, gAddT(ptrace.NewTraces(), gStampL(ld)+">c"))
+				return n.ConsumeTraces(ctx, gAddT(ptrace.NewTraces(), gStampL(ld)+">"+s.ID.Name()))
 			}}, nil
 		}, st))
 	}
@@ -271,7 +272,7 @@ func gFactories() (map[component.Type]receiver.Factory, map[component.Type]proce
 			if err != nil {
 				return nil, err
 			}
-			return gLC{gMk("conn/logs>logs/" + s.ID.String()), func(ctx context.Context, ld plog.Logs) error { return n.ConsumeLogs(ctx, gAddL(ld, ">c")) }}, nil
+			return gLC{gMk("conn/logs>logs/" + s.ID.String()), func(ctx context.Context, ld plog.Logs) error { return n.ConsumeLogs(ctx, gAddL(ld, ">"+s.ID.Name())) }}, nil
 		}, st))
 	}
 	cf := connector.NewFactory(gT, cfg, copts...)
@@ -287,6 +288,9 @@ type gPipe struct {
 	ExpE1   bool     `json:"exp_e1"`
 	ExpE2   bool     `json:"exp_e2"`
 	ExpC    bool     `json:"exp_connector"`
+	// a second connector "d" (its own instance of the same factory): configurations with two connectors
+	RecvD bool `json:"recv_connector_d,omitempty"`
+	ExpD  bool `json:"exp_connector_d,omitempty"`
 	ConnFirst    bool `json:"connector_listed_first_in_receivers,omitempty"`
 	ConnFirstExp bool `json:"connector_listed_first_in_exporters,omitempty"`
 }
@@ -360,6 +364,7 @@ func gBuild0(cfg gCfg, mode string) (*Graph, error) {
 		}
 	}
 	pc := pipelines.Config{}
+	usesD := false
 	for i, p := range cfg {
 		if !p.Present {
 			continue
@@ -373,6 +378,10 @@ func gBuild0(cfg gCfg, mode string) (*Graph, error) {
 		}
 		if p.RecvC && !p.ConnFirst {
 			x.Receivers = append(x.Receivers, gID("c"))
+		}
+		if p.RecvD {
+			x.Receivers = append(x.Receivers, gID("d"))
+			usesD = true
 		}
 		if p.ExpC && p.ConnFirstExp {
 			x.Exporters = append(x.Exporters, gID("c"))
@@ -389,9 +398,16 @@ func gBuild0(cfg gCfg, mode string) (*Graph, error) {
 		if p.ExpC && !p.ConnFirstExp {
 			x.Exporters = append(x.Exporters, gID("c"))
 		}
+		if p.ExpD {
+			x.Exporters = append(x.Exporters, gID("d"))
+			usesD = true
+		}
 		pc[gPids[i]] = x
 	}
 	conns := map[component.ID]component.Config{gID("c"): &struct{}{}}
+	if usesD {
+		conns[gID("d")] = &struct{}{}
+	}
 	return Build(context.Background(), Settings{
 		Telemetry: componenttest.NewNopTelemetrySettings(), BuildInfo: component.NewDefaultBuildInfo(),
 		ReceiverBuilder: builders.NewReceiver(one, rf), ProcessorBuilder: builders.NewProcessor(one, pf),
@@ -402,43 +418,59 @@ func gBuild0(cfg gCfg, mode string) (*Graph, error) {
 
 // reference: plain reachability on the CONFIGURATION
 func gReference(cfg gCfg, mode string) (expectErr string, want map[string][]string, census map[string]int, edges [][2]string) {
-	var asExp, asRecv []int
+	// per connector: the pipelines that use it as an exporter / as a receiver
+	conns := []string{"c", "d"}
+	asExp, asRecv := map[string][]int{}, map[string][]int{}
 	for i, p := range cfg {
 		if !p.Present {
 			continue
 		}
 		if p.ExpC {
-			asExp = append(asExp, i)
+			asExp["c"] = append(asExp["c"], i)
 		}
 		if p.RecvC {
-			asRecv = append(asRecv, i)
+			asRecv["c"] = append(asRecv["c"], i)
+		}
+		if p.ExpD {
+			asExp["d"] = append(asExp["d"], i)
+		}
+		if p.RecvD {
+			asRecv["d"] = append(asRecv["d"], i)
 		}
 	}
 	sigOf := func(i int) string { return gPids[i].Signal().String() }
-	// every use as exporter needs a pipeline that receives from it in a supported direction, and vice versa
-	for _, i := range asExp {
-		ok := false
-		for _, j := range asRecv {
-			ok = ok || gDirOK(sigOf(i), sigOf(j))
+	// every use as exporter needs a pipeline that receives from THAT connector in a supported direction, and vice versa
+	for _, cn := range conns {
+		for _, i := range asExp[cn] {
+			ok := false
+			for _, j := range asRecv[cn] {
+				ok = ok || gDirOK(sigOf(i), sigOf(j))
+			}
+			if !ok {
+				return "connector", nil, nil, nil
+			}
 		}
-		if !ok {
-			return "connector", nil, nil, nil
+		for _, j := range asRecv[cn] {
+			ok := false
+			for _, i := range asExp[cn] {
+				ok = ok || gDirOK(sigOf(i), sigOf(j))
+			}
+			if !ok {
+				return "connector", nil, nil, nil
+			}
 		}
 	}
-	for _, j := range asRecv {
-		ok := false
-		for _, i := range asExp {
-			ok = ok || gDirOK(sigOf(i), sigOf(j))
-		}
-		if !ok {
-			return "connector", nil, nil, nil
-		}
+	type hop struct {
+		to int
+		cn string
 	}
-	adj := map[int][]int{}
-	for _, i := range asExp {
-		for _, j := range asRecv {
-			if gDirOK(sigOf(i), sigOf(j)) {
-				adj[i] = append(adj[i], j)
+	adj := map[int][]hop{}
+	for _, cn := range conns {
+		for _, i := range asExp[cn] {
+			for _, j := range asRecv[cn] {
+				if gDirOK(sigOf(i), sigOf(j)) {
+					adj[i] = append(adj[i], hop{j, cn})
+				}
 			}
 		}
 	}
@@ -446,8 +478,8 @@ func gReference(cfg gCfg, mode string) (expectErr string, want map[string][]stri
 	var cyc func(i int) bool
 	cyc = func(i int) bool {
 		state[i] = 1
-		for _, j := range adj[i] {
-			if state[j] == 1 || (state[j] == 0 && cyc(j)) {
+		for _, h := range adj[i] {
+			if state[h.to] == 1 || (state[h.to] == 0 && cyc(h.to)) {
 				return true
 			}
 		}
@@ -473,10 +505,8 @@ func gReference(cfg gCfg, mode string) (expectErr string, want map[string][]stri
 		if p.ExpE2 {
 			want["exp/"+sig+"/vv/e2"] = append(want["exp/"+sig+"/vv/e2"], stamp)
 		}
-		if p.ExpC {
-			for _, j := range adj[i] {
-				walk(j, stamp+">c")
-			}
+		for _, h := range adj[i] {
+			walk(h.to, stamp+">"+h.cn)
 		}
 	}
 	for _, sig := range []pipeline.Signal{pipeline.SignalTraces, pipeline.SignalLogs} {
@@ -506,17 +536,19 @@ func gReference(cfg gCfg, mode string) (expectErr string, want map[string][]stri
 			census["exp/"+sig+"/vv/e2"] = 1
 			downs = append(downs, "exp/"+sig+"/vv/e2")
 		}
-		if p.ExpC {
-			for _, j := range adj[i] {
-				k := "conn/" + sig + ">" + gPids[j].Signal().String() + "/vv/c"
-				census[k] = 1
-				downs = append(downs, k)
-			}
+		for _, h := range adj[i] {
+			k := "conn/" + sig + ">" + gPids[h.to].Signal().String() + "/vv/" + h.cn
+			census[k] = 1
+			downs = append(downs, k)
 		}
-		if p.RecvC {
-			for _, j := range asExp {
+		for _, cn := range conns {
+			uses := (cn == "c" && p.RecvC) || (cn == "d" && p.RecvD)
+			if !uses {
+				continue
+			}
+			for _, j := range asExp[cn] {
 				if gDirOK(sigOf(j), sig) {
-					ups = append(ups, "conn/"+gPids[j].Signal().String()+">"+sig+"/vv/c")
+					ups = append(ups, "conn/"+gPids[j].Signal().String()+">"+sig+"/vv/"+cn)
 				}
 			}
 		}
@@ -553,6 +585,16 @@ type gCase struct {
 	FailStart []string `json:"fail_start,omitempty"`
 	FailStop  []string `json:"fail_stop,omitempty"`
 	Mutate    bool     `json:"mutating_processors,omitempty"`
+	// MapOrder: the iteration order of the graph builder's maps (pipelines, connectors, signal sets) - "" = ascending by key
+	// rendering, "reversed" = descending. In the real code it is random per process; here it is an enumerated answer.
+	MapOrder string `json:"map_iteration_order,omitempty"`
+}
+
+func gSetMapOrder(o string) {
+	vs.MapOrder = nil
+	if o == "reversed" {
+		vs.MapOrder = vs.MapOrderReversed
+	}
 }
 
 func gDesc(cfg gCfg) string {
@@ -567,6 +609,12 @@ func gDesc(cfg gCfg) string {
 		}
 		if p.RecvC {
 			r = append(r, "c")
+		}
+		if p.RecvD {
+			r = append(r, "d")
+		}
+		if p.ExpD {
+			e = append(e, "d")
 		}
 		if p.ExpE1 {
 			e = append(e, "e1")
@@ -777,6 +825,7 @@ func TestVerif(t *testing.T) {
 		}
 		var sig, what string
 		gSetDirs(rf.Replay.Dirs)
+		gSetMapOrder(rf.Replay.MapOrder)
 		if rf.Replay.Mode == "C10" {
 			sig, what = gLifecycle(rf.Replay.Cfg, rf.Replay.FailStart, rf.Replay.FailStop)
 		} else {
@@ -828,13 +877,20 @@ func TestVerif(t *testing.T) {
 				if n%256 == 0 && ctx.Expired() {
 					return
 				}
+				// the builder's map iteration order: both orders occur across the universe (alternating by configuration index);
+				// the two-connector sweep below runs every configuration under both
+				mo := ""
+				if n%2 == 1 {
+					mo = "reversed"
+				}
+				gSetMapOrder(mo)
 				if prop == "C09" {
 					ctx.R.Evals++
 					ctx.R.Trans++
 					sig, what := gRouting(cfg)
 					ctx.Nontrivial(vr.Hash(di, fmt.Sprint(cfg)))
 					if sig != "" {
-						ctx.Violate(sig, what, gCase{Mode: "C09", Cfg: cfg, Dirs: di, Mutate: strings.Contains(what, "[processors mutate in place]")})
+						ctx.Violate(sig, what, gCase{Mode: "C09", Cfg: cfg, Dirs: di, MapOrder: mo, Mutate: strings.Contains(what, "[processors mutate in place]")})
 						ctx.Outcome(strings.SplitN(sig, ":", 2)[0])
 					} else {
 						ctx.R.Traces++
@@ -876,7 +932,7 @@ func TestVerif(t *testing.T) {
 						sig, what := gLifecycle(cfg, pl[0], pl[1])
 						ctx.Nontrivial(vr.Hash(fmt.Sprint(cfg), fmt.Sprint(pl)))
 						if sig != "" {
-							ctx.Violate(sig, what, gCase{Mode: "C10", Cfg: cfg, FailStart: pl[0], FailStop: pl[1]})
+							ctx.Violate(sig, what, gCase{Mode: "C10", Cfg: cfg, FailStart: pl[0], FailStop: pl[1], MapOrder: mo})
 							ctx.Outcome(sig)
 						} else {
 							ctx.R.Traces++
@@ -891,6 +947,58 @@ func TestVerif(t *testing.T) {
 		}
 	}
 	}
+	// two connectors (C09): every pipeline lists any non-empty subset of {r1, c, d} as receivers and of {e1, c, d} as
+	// exporters, no processors; direction sets "all" and "traces->logs only"; BOTH map iteration orders for every one
+	if prop == "C09" {
+		var two []gPipe
+		two = append(two, gPipe{})
+		for r := 1; r < 8; r++ {
+			for e := 1; e < 8; e++ {
+				two = append(two, gPipe{Present: true, RecvR: r&1 != 0, RecvC: r&2 != 0, RecvD: r&4 != 0, ExpE1: e&1 != 0, ExpC: e&2 != 0, ExpD: e&4 != 0})
+			}
+		}
+		ctx.R.Extra["two_connector_pipeline_options"] = len(two)
+		for _, di := range []int{0, 1} {
+			gSetDirs(di)
+			for _, a := range two {
+				for _, b := range two {
+					for _, c := range two {
+						cfg := gCfg{a, b, c}
+						if !(a.RecvD || a.ExpD || b.RecvD || b.ExpD || c.RecvD || c.ExpD) {
+							continue // no use of the second connector: part of the sweep above
+						}
+						n++
+						if !ctx.Mine(n) {
+							continue
+						}
+						if n%256 == 0 && ctx.Expired() {
+							ctx.Cap("two-connector sweep not completed")
+							return
+						}
+						for _, mo := range []string{"", "reversed"} {
+							gSetMapOrder(mo)
+							ctx.R.Evals++
+							ctx.R.Trans++
+							sig, what := gRouting(cfg)
+							ctx.Nontrivial(vr.Hash(di, mo, fmt.Sprint(cfg)))
+							if sig != "" {
+								ctx.Violate(sig, what, gCase{Mode: "C09", Cfg: cfg, Dirs: di, MapOrder: mo})
+								ctx.Outcome(strings.SplitN(sig, ":", 2)[0])
+							} else {
+								ctx.R.Traces++
+								if e, _, _, _ := gReference(cfg, "C09"); e != "" {
+									ctx.Outcome("rejected-as-predicted:" + e)
+								} else {
+									ctx.Outcome("routed-as-predicted")
+								}
+							}
+						}
+					}
+				}
+			}
+		}
+	}
+	gSetMapOrder("")
 	gSetDirs(0)
 	ctx.R.States = ctx.R.Evals
 }
